@@ -389,7 +389,7 @@ def _witness(name, kfid, mk):
 
 
 c15_kf_and_ranges = _witness("c15_kf_and_ranges", "KF-C15-2",
-                             lambda: query.And([query.TermRange("u", u"a", u"c"), query.TermRange("u", u"b", u"b")]))
+                             lambda: query.And([query.TermRange("u", u"a", u"c"), query.TermRange("u", u"b", u"c")]))
 c15_kf_not_null = _witness("c15_kf_not_null", "KF-C15-3", lambda: query.Not(query.NullQuery))
 
 
